@@ -585,7 +585,7 @@ class RDSystem :
         sub = [list(r.ssto(sl)) for r in reactions]
         sto = [list(r.dsto(sl)) for r in reactions]
         
-        chemostats = [1-self.chemostats[i] for i in range(N)]
+        chemostats = [0 if self.chemostats[i] else 1 for i in range(N)]
         
         def dxdtf(t, x) :         
             rates = [k[i] for i in range(M)]
